@@ -69,12 +69,15 @@ def history_oracle(sc, out):
                 fails.append(where + "assertion names credential id %s that was never registered" % raw)
             else:
                 x, y, reg_rp = reg
-                if reg_rp != rp:
+                # MemoryStore resolves allow lists by id only (C05 known finding memory-store-ignores-rp-id): on it a foreign
+                # credential can be selected; that is reported by C05, not here - every other clause is still judged
+                memory_known = sc["store"]["kind"] not in CONTRACT_STORES and reg_rp != rp
+                if reg_rp != rp and not memory_known:
                     fails.append(where + "credential %s was registered for %r, asserted for %r" % (raw, reg_rp, rp))
                 cdh = bytes.fromhex(op["cd"]["hash"]) if op["cd"].get("mode") == "hash" else sha256(cdj)
                 if not ecdsa_verify(int(x, 16), int(y, 16), ad + cdh, der_sig(bytes.fromhex(o["signature"]))):
                     fails.append(where + "signature does not verify under the registered public key over authenticatorData || clientDataHash")
-            if raw not in [p["cred_id"] for p in elig]:
+            if raw not in [p["cred_id"] for p in elig] and not (reg is not None and sc["store"]["kind"] not in CONTRACT_STORES and reg[2] != rp):
                 fails.append(where + "credential %s is not an eligible credential (RP %r, allow list %s)" % (raw, rp, allow))
             stored = [p for p in before if p["cred_id"] == raw]
             if stored and o["user_handle"] != stored[0]["user_handle"]:
@@ -185,6 +188,17 @@ def directed(run):
             o1 = auth_op(rng, allow=allow); o1["req"]["allow_ty"] = tys
             o2 = auth_op(rng, allow=allow, cd=cd_mode(rng, 2)); o2["req"]["allow_ty"] = tys
             add("allow-typed/%s/%s" % (kind, tag), store_kind=kind, content=cont, user={"script": [USER_OK] * 2}, ops=[o1, o2])
+    # MemoryStore and a foreign id first in the allow list (the store resolves by id only - a C05 known finding): whatever
+    # credential is used, the authenticator data must carry the hash of THIS ceremony's effective RP ID
+    for tag, allow, rp_origin in [("foreign-first", [A1, B1], 5), ("foreign-only", [A1], 5), ("own-first", [B1, A1], 5)]:
+        o, r = ORIGINS[rp_origin]
+        add("memory-cross-rp/" + tag, store_kind="memory", content=content, user={"script": [USER_OK] * 2},
+            ops=[auth_op(rng, origin=o, rp_id=r, allow=allow), auth_op(rng, origin=o, rp_id=None, allow=allow, cd=cd_mode(rng, 2))])
+    # the single-slot store (and its lock wrapper) holding RP A's credential, an authentication for RP B whose allow list names it
+    for kind in ("option", "arc_mutex_option"):
+        o5, r5 = ORIGINS[5]
+        add("option-cross-rp/" + kind, store_kind=kind, content=content[:1], user={"script": [USER_OK] * 3},
+            ops=[auth_op(rng, origin=o5, rp_id=r5, allow=[A1]), auth_op(rng, origin=o5, rp_id=r5, allow=[bytes(16), A1]), auth_op(rng, allow=[A1])])
     # no credential at all / for this RP, with and without consent
     for tag, script in [("consent", USER_OK), ("denied", {"presence": False, "verification": False}), ("uv-missing", {"presence": True, "verification": False}), ("err", {"err": 0x27})]:
         add("empty/" + tag, store_kind="ref", user={"script": [script]}, ops=[auth_op(rng, uv="required")])
